@@ -624,6 +624,47 @@ func (e *Env) evalCall(n *Node) specVal {
 				cs = append(cs, eq(x.t, y.t))
 			}
 			return specVal{t: and(cs...), typ: tBool}
+		case "untouched":
+			// untouched(T, ...): every object of struct type T that existed in the reference state has
+			// all its fields unchanged, including the rows of slices and maps held directly in fields
+			var cs []string
+			for _, a := range args {
+				t := e.resolveType(a)
+				_, stT := namedStruct(t)
+				if stT == nil || !isRefStruct(t) {
+					e.fail("untouched(): %s is not a struct type of the repository", a)
+				}
+				lim := v.alloc(e.old)
+				for i := 0; i < stT.NumFields(); i++ {
+					k := v.fieldKey(t, i)
+					now, was := v.heap(e.st, k), v.heap(e.old, k)
+					v.smt.n++
+					r := fmt.Sprintf("r!u%d", v.smt.n)
+					rng := and("(< 0 "+r+")", "(< "+r+" "+lim+")")
+					if now != was {
+						cs = append(cs, fmt.Sprintf("(forall ((%s Int)) (! (=> %s (= (select %s %s) (select %s %s))) :pattern ((select %s %s))))", r, rng, now, r, was, r, now, r))
+					}
+					switch ft := stT.Field(i).Type().Underlying().(type) {
+					case *types.Slice:
+						ek := v.elemKey(ft.Elem())
+						en, eo := v.heap(e.st, ek), v.heap(e.old, ek)
+						if en != eo {
+							arr := "(s.arr (select " + was + " " + r + "))"
+							cs = append(cs, fmt.Sprintf("(forall ((%s Int)) (! (=> %s (= (select %s %s) (select %s %s))) :pattern ((select %s %s))))", r, rng, en, arr, eo, arr, was, r))
+						}
+					case *types.Map:
+						dk, vk := v.mapKeys(ft)
+						for _, mk := range []string{dk, vk} {
+							mn, mo := v.heap(e.st, mk), v.heap(e.old, mk)
+							if mn != mo {
+								ref := "(select " + was + " " + r + ")"
+								cs = append(cs, fmt.Sprintf("(forall ((%s Int)) (! (=> %s (= (select %s %s) (select %s %s))) :pattern ((select %s %s))))", r, rng, mn, ref, mo, ref, was, r))
+							}
+						}
+					}
+				}
+			}
+			return specVal{t: and(cs...), typ: tBool}
 		case "seqeq":
 			a, b := e.eval(args[0]), e.eval(args[1])
 			return specVal{t: e.seqEq(a, b), typ: tBool}
@@ -1064,6 +1105,7 @@ var specUFs = map[string]specUF{
 	"SignOf":        {"uf!SignOf", extType(pkgBitcoin, "Signature")},
 	"PublicKeyOf":   {"uf!PublicKeyOf", extType(pkgBitcoin, "PublicKey")},
 	"SeedAt":        {"uf!SeedAt", extType(pkgBitcoin, "Hash32")},
+	"BlockValid":    {"uf!BlockMerkleValid", basicType(types.Bool)},
 	"KeyEq":         {"uf!PublicKeyEqual", basicType(types.Bool)},
 	"SigVerify":     {"uf!SigVerify", basicType(types.Bool)},
 	"AcceptSigHash": {"uf!AcceptSigHash", extType(pkgBitcoin, "Hash32")},
